@@ -81,6 +81,9 @@ def ResV.errVal {ε α} [Inhabited ε] : ResV ε α → ε
 /-- `Option::unwrap` on a value the code has just made `Some` (the `None` case is a panic site of C04's model) -/
 def unwrapD {α : Type} [Inhabited α] (o : Option α) : α := o.getD default
 
+/-- `x as i<w>` for an unsigned `x < 2^w`: two's complement -/
+def toSigned (w x : Nat) : Int := if x < 2^(w-1) then (x : Int) else (x : Int) - (2^w : Nat)
+
 /-- `&s[lo .. lo+n]` -/
 def slice (bs : Bytes) (lo n : Nat) : Bytes := (bs.drop lo).take n
 
